@@ -359,8 +359,8 @@ func (w *World) TruncateChecked(n *Node, d *Driver, race bool) {
 	// clients keep asking for balances while the truncation runs (no writer is active then): every answer, whether it
 	// was computed before, during or after the cut, must be the answer given before the truncation
 	type badAns struct {
-		addr         string
-		got          balAns
+		addr           string
+		got            balAns
 		phase0, phase1 int32 // truncation phase (0 not started, 1 running, 2 returned) when the query was sent / answered
 	}
 	var phase atomic.Int32
